@@ -584,7 +584,7 @@ def run_path(unit: Unit, th, decisions):
         if c.setup:
             c.setup(ex)
         for g, init in c.ghost.items():
-            env[g] = ex.spec_eval_value(init) if isinstance(init, str) else init(ex)
+            ex.set_name(g, ex.spec_eval_value(init) if isinstance(init, str) else init(ex))
         for label, cl in c.requires.items():
             ex.assume(ex.spec_eval(c.clause(cl).expr))
         ex.old_envs = ex.snapshot_envs()
